@@ -107,5 +107,5 @@ func c08Definitions(c *Ctx, ge *GuardEngine) {
 	}
 	r := req("window-id-shortcut", "consensus.(*MidState).storageProofWindowID", "%MS%.fces[…].FileContractElement.FileContract.WindowStart", opEQ, "%CH%", "a contract created or revised in this block can be proven only if its window starts at the child height (the parent block is the window-start block)", "ok:%MS%.elements[…] is true")
 	r.Weak = true
-	CheckReq(c, "definition", r, gs)
+	ge.CheckReq(c, "definition", r, gs)
 }
